@@ -138,6 +138,29 @@ CHECKS = {
              '~56k snippet triples. Level exploration because the diagnostic space is sampled through a catalogue.',
         note='matcher regexp executed with Go RE2 (JavaScript dialect differences assumed irrelevant); CR counted as a line '
              'break; shellcheck/pyflakes message texts not in the catalogue'),
+    'C04': dict(
+        category='model_checking', design_ref='5 (C04), 3.1 ExprLexer/ExprParser',
+        technique='TLA+ specs ExprLexer.tla (DFA with one-character look-ahead vs. declarative token languages, longest viable '
+                  'prefix) and ExprParser.tla (recursive descent vs. stratified grammar with tree building) checked by TLC; '
+                  'dumped vectors / printed sentence tables replayed into the real lexer and parser (all 14^N token strings '
+                  'enumerated against the table) and through Linter.Lint; random long inputs recorded and validated by TLC '
+                  '(ExprTrace.tla)',
+        text='TLC proves DFA = declarative tokenisation and parser = grammar (accepted iff derivable, the tree is the '
+             'derivation tree, one error inside the text) on complete bounded spaces; the real code is bound on the same '
+             'spaces with rotated concrete representatives and whitespace interleavings.',
+        note='integer/float literals kept in range; BOM outside the alphabet; named deviation exponent-leading-zero is a '
+             'listed known finding (pinned by an existing unit test)'),
+    'C11': dict(
+        category='model_checking', design_ref='5 (C11), 3.1 Untrusted, A.3',
+        technique='TLA+ spec Untrusted.tla (matcher automaton over the intended visiting order vs. declarative access-chain '
+                  'fold over the documented-path tree) checked by TLC; dumped expressions replayed into the real '
+                  'ExprSemanticsChecker/UntrustedInputChecker and through Linter.Lint in script and non-script positions; '
+                  'the real search tree cross-checked against the spec; random deep expressions validated by TLC '
+                  '(UntrustedTrace.tla)',
+        text='Automaton = declarative reports (same reports, same order) for all chains/spellings/embeddings of the bounded '
+             'universe; the real checker must report exactly the predicted path sets, only in run: / github-script script:.',
+        note='vectors with a semantic error are not applicable (~10 %); dynamic property names outside the universe; the '
+             'documented set is the 20 leaf paths of the pinned table'),
 }
 
 REASON_NOT_YET = 'check not built yet in this revision of /verif (planned, see DESIGN.md section 5); not claimed'
